@@ -25,6 +25,156 @@ class AnalysisError(Exception):
 # small ast helpers
 
 
+_MUTATORS = ("append", "extend", "update", "pop", "sort", "insert", "remove", "clear", "read", "write", "seek",
+             "readline", "readlines", "send", "recv", "close", "setdefault", "add", "discard", "popitem")
+
+
+def _touched(st: ast.AST) -> set:
+    """names a statement may rebind or mutate (assignment, augmented assignment, subscript/attribute store,
+    mutating method call, loop / with / except targets, del)"""
+    out = set()
+    for n in ast.walk(st):
+        if isinstance(n, ast.Name) and isinstance(n.ctx, (ast.Store, ast.Del)):
+            out.add(n.id)
+        elif isinstance(n, (ast.Subscript, ast.Attribute)) and isinstance(getattr(n, "ctx", None), (ast.Store, ast.Del)):
+            b_ = n
+            while isinstance(b_, (ast.Subscript, ast.Attribute)):
+                b_ = b_.value
+            if isinstance(b_, ast.Name):
+                out.add(b_.id)
+        elif isinstance(n, ast.Call) and isinstance(n.func, ast.Attribute) and n.func.attr in _MUTATORS:
+            b_ = n.func.value
+            while isinstance(b_, (ast.Subscript, ast.Attribute)):
+                b_ = b_.value
+            if isinstance(b_, ast.Name):
+                out.add(b_.id)
+        elif isinstance(n, (ast.FunctionDef, ast.AsyncFunctionDef, ast.ClassDef)):
+            out.add(n.name)
+        elif isinstance(n, (ast.Global, ast.Nonlocal)):
+            out.update(n.names)
+    return out
+
+
+def inline_temporaries(fn_node: ast.AST, single_use_only: bool = True) -> ast.AST:
+    """A copy of a function's AST in which temporaries are substituted into their use:
+           t = g(x)            ->      y = f(g(x) + 1)
+           y = f(t + 1)
+    so that syntax-directed rules see one expression whether or not its parts were given names.  A name is
+    substituted only if it is bound exactly once in the function by a plain `name = expr` statement, is read exactly
+    once, the read is in a later statement of the same block, and nothing the defining expression reads is rebound or
+    mutated in between (nor inside the using statement when that is a compound statement).  Used for pattern
+    matching only: substituted nodes keep their original line numbers."""
+    import copy
+
+    node = copy.deepcopy(fn_node)
+    params = set()
+    if hasattr(node, "args"):
+        a = node.args
+        params = {x.arg for x in a.args + a.kwonlyargs + a.posonlyargs}
+        if a.vararg:
+            params.add(a.vararg.arg)
+        if a.kwarg:
+            params.add(a.kwarg.arg)
+
+    class Sub(ast.NodeTransformer):
+        def __init__(self, name, value):
+            self.name, self.value, self.done = name, value, 0
+
+        def visit_Name(self, n):
+            if isinstance(n.ctx, ast.Load) and n.id == self.name:
+                self.done += 1
+                return self.value
+            return n
+
+    def blocks(n):
+        for fld in ("body", "orelse", "finalbody"):
+            sub = getattr(n, fld, None)
+            if isinstance(sub, list) and sub and isinstance(sub[0], ast.stmt):
+                yield sub
+                for st in sub:
+                    if not isinstance(st, (ast.FunctionDef, ast.AsyncFunctionDef, ast.ClassDef)) or True:
+                        yield from blocks(st)
+        for h in getattr(n, "handlers", []) or []:
+            yield h.body
+            for st in h.body:
+                yield from blocks(st)
+
+    for _round in range(64):
+        stores: Dict[str, int] = {}
+        loads: Dict[str, int] = {}
+        for n in ast.walk(node):
+            if isinstance(n, ast.Name):
+                if isinstance(n.ctx, ast.Load):
+                    loads[n.id] = loads.get(n.id, 0) + 1
+                else:
+                    stores[n.id] = stores.get(n.id, 0) + 1
+            elif isinstance(n, (ast.Global, ast.Nonlocal)):
+                for x in n.names:
+                    stores[x] = stores.get(x, 0) + 2
+        changed = False
+        for blk in blocks(node):
+            for i, st in enumerate(blk):
+                if not (isinstance(st, ast.Assign) and len(st.targets) == 1 and isinstance(st.targets[0], ast.Name)):
+                    continue
+                t = st.targets[0].id
+                if t in params or stores.get(t, 0) != 1 or loads.get(t, 0) != 1:
+                    continue
+                if isinstance(st.value, (ast.Lambda, ast.Yield, ast.YieldFrom, ast.Await, ast.ListComp, ast.DictComp,
+                                         ast.SetComp, ast.GeneratorExp, ast.List, ast.Dict, ast.Set, ast.NamedExpr)):
+                    continue
+                reads = {x.id for x in ast.walk(st.value) if isinstance(x, ast.Name)}
+                if t in reads:
+                    continue
+                j = None
+                for k in range(i + 1, len(blk)):
+                    if any(isinstance(x, ast.Name) and isinstance(x.ctx, ast.Load) and x.id == t for x in ast.walk(blk[k])):
+                        j = k
+                        break
+                if j is None:
+                    continue
+                if any(_touched(blk[k]) & reads for k in range(i + 1, j)):
+                    continue
+                user = blk[j]
+                compound = any(isinstance(getattr(user, f_, None), list) and getattr(user, f_) and
+                               isinstance(getattr(user, f_)[0], ast.stmt) for f_ in ("body", "orelse", "finalbody"))
+                if compound and (_touched(user) & reads):
+                    continue
+                # the read must not sit in a nested function / lambda / comprehension (evaluated later or repeatedly)
+                nested = False
+                for x in ast.walk(user):
+                    if isinstance(x, (ast.FunctionDef, ast.AsyncFunctionDef, ast.Lambda, ast.ListComp, ast.SetComp,
+                                      ast.DictComp, ast.GeneratorExp)) and x is not user:
+                        if any(isinstance(y, ast.Name) and y.id == t for y in ast.walk(x)):
+                            nested = True
+                if nested:
+                    continue
+                sub = Sub(t, st.value)
+                blk[j] = sub.visit(user)
+                if sub.done == 1:
+                    del blk[i]
+                    changed = True
+                    break
+            if changed:
+                break
+        if not changed:
+            break
+    ast.fix_missing_locations(node)
+    return node
+
+
+_norm_cache: Dict[int, Tuple[ast.AST, ast.AST]] = {}
+
+
+def norm(fn_node: ast.AST) -> ast.AST:
+    """cached inline_temporaries(fn_node)"""
+    hit = _norm_cache.get(id(fn_node))
+    if hit is not None and hit[0] is fn_node:
+        return hit[1]
+    out = inline_temporaries(fn_node)
+    _norm_cache[id(fn_node)] = (fn_node, out)
+    return out
+
+
 def returned_values(fn_node: ast.AST, top_level_only: bool = False) -> List[Tuple[ast.Return, ast.AST]]:
     """(return statement, returned expression) of a function, looking through the idiom
            result = <expr>
